@@ -23,11 +23,14 @@
 //! ECDSA (`DigestSigner::sign_digest`, RFC 6979 in the real crate: a deterministic function of key and digest):
 //!   r = uf(P384_SIG, key = c, msg = digest ‖ 00), s = uf(P384_SIG, key = c, msg = digest ‖ 01), each assumed in 1..n-1
 //!   (two 48-byte halves because vmodel-core outputs are at most 64 bytes). Signing never fails.
-//!   IDEAL SIGNATURE: `verify_digest(pk, digest, sig)` is Ok iff r and s were produced by the signing function for exactly
-//!   (pk, digest) ("no signature verifies for a message it was not made for").
-//!   `Signature::from_bytes` is exact: Err iff r or s is 0 or >= n. `normalize_s()` returns None: low-S/high-S is not
-//!   represented, the model's signer is taken to emit normalised signatures. NOT modelled: ECDSA malleability (the real
-//!   verifier also accepts (r, n-s)) — excluded by the ideal-signature assumption.
+//!   The signer's s is ANY value in 1..n-1 — low or high: `ecdsa` does not normalise for NistP384 (`NORMALIZE_S = false`).
+//!   IDEAL SIGNATURE WITH MALLEABILITY: `verify_digest(pk, digest, (r, s))` is Ok iff r was produced by the signing function for
+//!   exactly (pk, digest) and s OR n - s was produced for it ("no signature verifies for a message it was not made for", and the
+//!   only other signature that verifies is the twin (r, n - s), as for real ECDSA: the verification equation depends on ±s only
+//!   through the x coordinate). Verification makes no `uf` call (table look-ups only), so the memo-table size never depends on it.
+//!   `Signature::from_bytes` is exact: Err iff r or s is 0 or >= n. `normalize_s()` is exact: Some((r, n - s)) iff s > floor(n/2)
+//!   (48-byte big-endian arithmetic against the constant ORDER; n is odd, so s > floor(n/2) <=> s > n - s), None otherwise.
+//!   `Signature::r()/s()` are not provided (the repository does not use them; the model's NonZeroScalar carries a derived point).
 //! ECDH: `diffie_hellman(d, Q)` = uf(P384_DH, msg = min(X_P, X_Q) ‖ max(X_P, X_Q)) with P = public key of d — a commutative
 //!   uninterpreted function of the two X coordinates (dh(a, pk(b)) == dh(b, pk(a)); the sign of either point is irrelevant,
 //!   as for the real x-coordinate ECDH); not assumed collision-free. Q = identity gives the all-zero secret.
@@ -68,6 +71,33 @@ fn in_range(v: &[u8; 48]) -> bool {
     }
     nonzero && lt
 }
+/// n - v, 48-byte big-endian, for 0 < v < n (then 0 < n - v < n). Branch-free ripple-borrow subtraction, constant bound.
+fn neg_mod_n(v: &[u8; 48]) -> [u8; 48] {
+    let mut o = [0u8; 48];
+    let mut borrow: u16 = 0;
+    let mut i = 48;
+    while i > 0 {
+        i -= 1;
+        let t = 256 + ORDER[i] as u16 - v[i] as u16 - borrow; // 0 ..= 511
+        o[i] = (t & 0xff) as u8;
+        borrow = 1 - (t >> 8);
+    }
+    o
+}
+/// a > b as 48-byte big-endian numbers
+fn gt_be(a: &[u8; 48], b: &[u8; 48]) -> bool {
+    let mut gt = false;
+    let mut decided = false;
+    let mut i = 0;
+    while i < 48 {
+        if !decided && a[i] != b[i] {
+            gt = a[i] > b[i];
+            decided = true;
+        }
+        i += 1;
+    }
+    gt
+}
 /// (valid(X), compact-root selector(X))
 fn x_valid(x: &[u8]) -> (bool, u8) {
     let mut o = [0u8; 1];
@@ -78,6 +108,14 @@ pub mod model {
     /// 0 < v < n (the exact check `SecretKey::from_bytes` performs)
     pub fn in_range(v: &[u8; 48]) -> bool {
         super::in_range(v)
+    }
+    /// n - v (for 0 < v < n): the s component of the twin signature
+    pub fn neg_mod_n(v: &[u8; 48]) -> [u8; 48] {
+        super::neg_mod_n(v)
+    }
+    /// v > floor(n/2): "high S"
+    pub fn is_high(v: &[u8; 48]) -> bool {
+        super::gt_be(v, &super::neg_mod_n(v))
     }
     static mut STASH: super::NonZeroScalar = super::NonZeroScalar { d: [0; 48], c: [0; 49] };
     /// MODEL-ONLY (harness support): derive the key pair of `d` now and keep it, so that a harness-side replacement of
@@ -518,9 +556,14 @@ pub mod ecdsa {
             b[48..].copy_from_slice(&self.s);
             b
         }
-        /// see the crate header: low-S/high-S is not represented
+        /// exact (ecdsa 0.16): `if s.is_high() { Some((r, -s)) } else { None }`, is_high <=> s > floor(n/2) <=> s > n - s (n odd)
         pub fn normalize_s(&self) -> Option<Self> {
-            None
+            let neg = neg_mod_n(&self.s);
+            if gt_be(&self.s, &neg) {
+                Some(Signature { r: self.r, s: neg })
+            } else {
+                None
+            }
         }
     }
 
@@ -569,7 +612,9 @@ pub mod ecdsa {
             let d = msg_digest.finalize_fixed();
             let c = &self.inner.point.c;
             let r = was_output_of_kp(alg::P384_SIG, c, &half_msg(&d, 0), &signature.r);
-            let s = was_output_of_kp(alg::P384_SIG, c, &half_msg(&d, 1), &signature.s);
+            // malleability: (r, s) and (r, n - s) verify together
+            let s = was_output_of_kp(alg::P384_SIG, c, &half_msg(&d, 1), &signature.s)
+                | was_output_of_kp(alg::P384_SIG, c, &half_msg(&d, 1), &neg_mod_n(&signature.s));
             if r && s {
                 Ok(())
             } else {
